@@ -149,6 +149,28 @@ void observe_doc(const json& req, Document& doc, json& out, bool returned_normal
         out["dump"] = docdump(doc, so);
     if (wants(req, "positions"))
         out["positions"] = positions_json(doc);
+    if (wants(req, "queries")) {
+        // the queries of the document, parsed the way a client does it (one TigaPropertyBuilder per formula)
+        json qs = json::array();
+        for (auto& q : doc.get_queries()) {
+            json qj;
+            size_t nerr0 = doc.get_errors().size();
+            guarded(qj, [&] {
+                TigaPropertyBuilder pb(doc);
+                qj["ret"] = parseProperty(q.formula.c_str(), &pb);
+                json props = json::array();
+                for (auto& p : pb.getProperties())
+                    props.push_back({(int)p.type, sexpr(p.intermediate, so)});
+                qj["props"] = props;
+            });
+            json msgs = json::array();
+            for (size_t i = nerr0; i < doc.get_errors().size(); ++i)
+                msgs.push_back(doc.get_errors()[i].msg);
+            qj["msgs"] = msgs;
+            qs.push_back(qj);
+        }
+        out["queries"] = qs;
+    }
     if (wants(req, "write") && clean)
         out["written"] = write_xml(doc, out);
     if (wants(req, "writeany"))
@@ -262,7 +284,11 @@ static json op_xmls(const json& req)
         r.erase("tpl");
         r["buf"] = buf;
         std::string kind = req.value("kind", "xml");
+        struct timespec c0, c1;
+        clock_gettime(CLOCK_THREAD_CPUTIME_ID, &c0);
         json o = kind == "xta" ? op_xta(r) : op_xml(r);
+        clock_gettime(CLOCK_THREAD_CPUTIME_ID, &c1);
+        o["us"] = (long)(c1.tv_sec - c0.tv_sec) * 1000000L + (c1.tv_nsec - c0.tv_nsec) / 1000;  // CPU time, load independent
         std::string se = take_stderr();
         if (!se.empty())
             o["stderr"] = se;
